@@ -408,14 +408,24 @@ def _lr_names(ck: Check, repo: Repo) -> None:
     wi = repo.fn("agilerl.algorithms.core.wrappers", "OptimizerWrapper.__init__")
     wcfg = CFG(wi.node)
     stores = [n_ for n_ in wcfg.live_nodes() if n_.kind == "stmt" and isinstance(n_.ast, ast.Assign) and dotted(n_.ast.targets[0]) == "self.lr_name"]
+    # the stores that are alternatives of one choice on `lr_name` (two arms of an if / else, or one conditional expression) form one obligation
+    groups: Dict[tuple, list] = {}
     for st in stores:
-        v = st.ast.value
-        gs = [(ast.unparse(g).replace(" ", ""), pol) for g, pol, _ in wcfg.guards_at(st)]
-        ok = dotted(v) == "lr_name" or (isinstance(v, ast.IfExp) and "lr_name" in ast.unparse(v.test) and (dotted(v.body) == "lr_name" or dotted(v.orelse) == "lr_name")) \
-            or any((t == "lr_nameisNone" and pol) or (t == "lr_nameisnotNone" and not pol) for t, pol in gs)
-        ck.ob("C06.6", wi, st.ast, ok, "OptimizerWrapper.__init__ uses an explicitly given lr_name instead of inferring one",
-              detail=f"`{short(st.ast, 80)}` ignores the lr_name argument on this path (it is only honoured together with network_names)",
-              construct=f"OptimizerWrapper.__init__: {short(st.ast, 60)}")
+        outer = tuple(sorted((ast.unparse(g), pol) for g, pol, _ in wcfg.guards_at(st) if "lr_name" not in ast.unparse(g)))
+        groups.setdefault(outer, []).append(st)
+    for outer, sts in sorted(groups.items(), key=lambda kv: min(x.lineno for x in kv[1])):
+        bad = None
+        for st in sts:
+            v = st.ast.value
+            gs = [(ast.unparse(g).replace(" ", ""), pol) for g, pol, _ in wcfg.guards_at(st)]
+            ok1 = dotted(v) == "lr_name" or (isinstance(v, ast.IfExp) and "lr_name" in ast.unparse(v.test) and (dotted(v.body) == "lr_name" or dotted(v.orelse) == "lr_name")) \
+                or any((t == "lr_nameisNone" and pol) or (t == "lr_nameisnotNone" and not pol) for t, pol in gs)
+            if not ok1:
+                bad = st
+        where = " and ".join(f"{'' if pol else 'not '}({g})" for g, pol in outer) or "always"
+        ck.ob("C06.6", wi, (bad or sts[0]).ast, bad is None, "OptimizerWrapper.__init__ uses an explicitly given lr_name instead of inferring one",
+              detail=f"`{short(bad.ast, 80)}` ignores the lr_name argument on this path (it is only honoured together with network_names)" if bad is not None else "",
+              construct=f"OptimizerWrapper.__init__: self.lr_name stored [{where}]")
     ck.floor("C06.6", len(stores), 2, "assignments of self.lr_name in OptimizerWrapper.__init__", fn=wi)
 
 
